@@ -7,7 +7,10 @@ cache histories are replayed against a per-prompt model of the original reply.
 import hashlib
 import sys
 
-from rv import core
+import re
+import types as _types
+
+from rv import core, sched
 from rv.vclock import VClock, patched
 
 PID = "C07"
@@ -27,15 +30,64 @@ PROMPTS = ["Deploy to production", "", "x" * 100000, "nul\x00byte", "emoji \U000
            "  padded  ", "RTL ‮ text", "a" * 16, "a" * 16 + "b", "A" * 16, "line\nbreak", "﻿bom", "é combining é",
            "calculate 2+2", "Avoid this"]
 TABLE = [(lg, e, a) for lg in LOGICS for e in VERDICTS for a in VERDICTS]
+KNOWN = {"EXECUTE", "PERMIT", "BLOCK", "FAILURE", "DEFER", "UNKNOWN"}
+EXTRA_STATIC = ["SUCCESS", "success", "OK", "ALLOW", "ALLOWED", "APPROVE", "APPROVED", "permit", "Permit", "execute", "Execute", "",
+                "PERMIT ", " PERMIT", "ERROR", "SKIPPED", "BLOCKED", "CIRCUIT_OPEN", "YES", "TRUE", "PASS", "GRANT", "PERMITTED", "EXECUTED"]
+
+
+def harvested_verdicts():
+    """Upper-case word constants found in the code objects of the guard-loop / core-types / agent modules at run time: if a
+    change makes the gate accept some new spelling, that spelling is in its constants and gets driven as an 'unknown verdict'."""
+    import operon_ai.topology.loops as m1, operon_ai.core.types as m2, operon_ai.core.agent as m3
+    found = set()
+
+    def walk(code):
+        for c in code.co_consts:
+            if isinstance(c, str) and re.fullmatch(r"[A-Za-z_]{2,24}", c) and c.upper() == c:
+                found.add(c)
+            elif isinstance(c, (tuple, frozenset)):
+                for x in c:
+                    if isinstance(x, str) and re.fullmatch(r"[A-Za-z_]{2,24}", x) and x.upper() == x:
+                        found.add(x)
+            elif isinstance(c, _types.CodeType):
+                walk(c)
+    for m in (m1, m2, m3):
+        for v in vars(m).values():
+            if isinstance(v, type) and v.__module__ == m.__name__:
+                for f in vars(v).values():
+                    f = getattr(f, "__func__", f)
+                    if hasattr(f, "__code__"):
+                        walk(f.__code__)
+            elif hasattr(v, "__code__") and getattr(v, "__module__", None) == m.__name__:
+                walk(v.__code__)
+    return sorted(found - KNOWN)
+
+
+_EXTRA = None
+
+
+def extra_table():
+    global _EXTRA
+    if _EXTRA is None:
+        words = list(dict.fromkeys(EXTRA_STATIC + harvested_verdicts()))
+        cells = []
+        for lg in LOGICS:
+            for v in words:
+                cells += [(lg, v, "PERMIT"), (lg, v, v), (lg, "EXECUTE", v), (lg, v, "BLOCK"), (lg, v, "DEFER"), (lg, "BLOCK", v)]
+        _EXTRA = cells
+    return _EXTRA
 
 
 def plan(tier):
     nprompts = 6 if tier == "quick" else len(PROMPTS)
     hist = 6000 if tier == "quick" else 150000
-    return {"cases": len(TABLE) * nprompts + hist, "shards": 8 if tier == "quick" else 14,
+    nthr = 60 if tier == "quick" else 1200
+    return {"cases": len(TABLE) * nprompts + len(extra_table()) + nthr + hist, "shards": 8 if tier == "quick" else 14,
             "min_nontrivial": 300, "timeout": 600 if tier == "quick" else 2400, "exhaustive": False,
             "require": {"table_cells": len(TABLE) * nprompts, "not_blocked_results": 100, "tokens_checked": 100,
-                        "cache_hits_checked": 1000, "agent_exceptions": 100, "ttl_expiries": 50}}
+                        "cache_hits_checked": 1000, "agent_exceptions": 100, "ttl_expiries": 50,
+                        "unknown_verdict_cells": 500, "thread_schedules": 3000, "thread_results_judged": 6000,
+                        "long_prompt_family_runs": 200}}
 
 
 class Boom(Exception):
@@ -153,7 +205,101 @@ def run_case(ctx, n):
         if n % 700 == 0:
             ctx.sample(dict(w, prompt=prompt[:40], result=verdict_tuple(r)))
         return
+    n2 = n - ntable
+    ext = extra_table()
+    if n2 < len(ext):
+        logic, e, a = ext[n2]
+        loop = make_loop(logic, n2 % 2 == 0)
+        loop.executor.verdict, loop.assessor.verdict = e, a
+        w = {"logic": logic, "executor": e, "assessor": a, "prompt": "p", "note": "unknown-verdict sweep"}
+        ctx.count("unknown_verdict_cells")
+        try:
+            r = loop.run("p")
+        except BaseException as ex:
+            ctx.violation("run-raises", "run() raised %r" % (ex,), w)
+            return
+        judge(ctx, logic, e, a, "p", r, loop.assessor.name, "fresh", w)
+        return
+    n3 = n2 - len(ext)
+    nthr = 60 if ctx.tier == "quick" else 1200
+    if n3 < nthr:
+        return thread_case(ctx, n)
     history_case(ctx, n)
+
+
+class PromptStub:
+    """verdict encoded in the prompt itself: 'E=<verdict>;A=<verdict>;#id' — so that under threads every request has its own verdict pair"""
+
+    def __init__(self, name, role):
+        self.name, self.role = name, role
+
+    def express(self, signal):
+        from operon_ai.core.types import ActionProtein
+        fields = dict(f.split("=", 1) for f in signal.content.split(";") if "=" in f)
+        v = fields[self.role]
+        if v == "raise":
+            raise Boom("agent crashed")
+        return ActionProtein(v, "payload", 0.8)
+
+
+def thread_case(ctx, n):
+    """2-3 threads call run() on ONE shared loop under the line-level scheduler; every reply is judged by its own request's verdicts."""
+    from operon_ai.topology.loops import CoherentFeedForwardLoop, GateLogic
+    from operon_ai.state.metabolism import ATP_Store
+    sched.instrument(CoherentFeedForwardLoop, PromptStub)
+    rng = ctx.rng(n)
+    logic = rng.choice(LOGICS)
+    cache = rng.random() < 0.5
+    nthreads = rng.choice([2, 2, 3])
+    reqs = []
+    for t in range(nthreads):
+        ops = []
+        for k in range(rng.randint(1, 2)):
+            e, a = rng.choice(VERDICTS), rng.choice(VERDICTS)
+            if rng.random() < 0.5:
+                e, a = rng.choice(["EXECUTE", "BLOCK", "PERMIT", "FAILURE"]), rng.choice(["PERMIT", "BLOCK"])
+            ops.append(("E=%s;A=%s;#%d.%d" % (e, a, t, k), e, a))
+        reqs.append(ops)
+    desc = {"logic": logic, "cache": cache, "threads": [[o[0] for o in ops] for ops in reqs]}
+
+    def one(policy, label):
+        loop = CoherentFeedForwardLoop(ATP_Store(10 ** 6, silent=True), gate_logic=GateLogic[logic], enable_circuit_breaker=False,
+                                       enable_cache=cache, silent=True)
+        loop.executor, loop.assessor = PromptStub("Gene_Z (Exec)", "E"), PromptStub("Gene_Y (Risk)", "A")
+        loop._lock = sched.SchedLock(loop._lock, "loop._lock")
+
+        def mk(ops):
+            return lambda: [loop.run(p) for (p, _, _) in ops]
+        sc = sched.Scheduler(policy, watchdog_s=30.0)
+        sc.run([mk(ops) for ops in reqs])
+        ctx.count("thread_schedules")
+        w = dict(desc, policy=label, choices=sc.choices[:300])
+        if sc.stuck:
+            ctx.inconclusive("a schedule hit the wall-clock watchdog (not a verdict)")
+            return sc
+        if sc.deadlock:
+            ctx.violation("deadlock", "guard loop deadlocked: %s" % sc.deadlock, w)
+            return sc
+        for t, ops in enumerate(reqs):
+            if sc.errors[t] is not None:
+                ctx.violation("run-raises-under-threads", "run() raised %r" % (sc.errors[t],), w)
+                continue
+            for (p, e, a), r in zip(ops, sc.results[t]):
+                ctx.count("thread_results_judged")
+                judge(ctx, logic, e, a, p, r, "Gene_Y (Risk)", "threads", dict(w, request=p, reply=verdict_tuple(r)))
+        if sc.switch_while_other_inside:
+            ctx.nontrivial(("threads", sc.trace_hash()))
+        return sc
+
+    base = one(sched.PreemptionPolicy({}), "pb(0)")
+    N = max(base.step, 1)
+    combos = [(s_, t) for s_ in range(1, N + 1) for t in range(nthreads)]
+    if len(combos) > 250:
+        combos = rng.sample(combos, 250)
+    for (s_, t) in combos:
+        one(sched.PreemptionPolicy({s_: t}), "pb(1)@%d->%d" % (s_, t))
+    for i in range(80):
+        one(sched.RandomPolicy(rng, (0.1, 0.3, 0.6)[i % 3]), "random")
 
 
 def rand_prompt(rng):
@@ -180,6 +326,17 @@ def history_case(ctx, n):
         loop = make_loop(logic, True, ttl=ttl, assessor_name=name)
         originals = {}   # prompt -> (verdict tuple, e, a, time) of the last NON-cached reply that the cache may hold
         pool = [rand_prompt(rng) for _ in range(rng.randint(1, 4))]
+        if rng.random() < 0.3:
+            # family of long prompts of equal length that differ in exactly one position (start, around 16 / 1 KiB / 4 KiB, end)
+            L = rng.choice([1500, 3000, 70000])
+            base = "".join(rng.choice("abcdefgh ") for _ in range(64)) * (L // 64 + 1)
+            base = base[:L]
+            pool = []
+            for k in rng.sample([0, 15, 16, 17, 100, 1023, 1024, 1025, 4095, 4096, L - 1], 3):
+                if k < L:
+                    pool.append(base[:k] + "Z" + base[k + 1:])
+            pool.append(base)
+            ctx.count("long_prompt_family_runs")
         hits = 0
         for i in range(rng.randint(2, 12)):
             r0 = rng.random()
